@@ -5,7 +5,19 @@ Property theorems over the executable model `Core/C14Graph.lean` (namespace `Men
 Helper lemmas: `Lemmas/C14Basic.lean` (edge sets, queries, masking, tree relations),
 `Lemmas/C14Paths.lean` (path enumeration, route reconstruction, cost), `Lemmas/C14Dist.lean`
 (Bellman–Ford reference is sound and optimal), `Lemmas/C14Small.lean` + 24 chunk files
-(kernel-decided tables over the property's two exhaustive domains).  Core Lean only.
+(kernel-decided tables over the property's two exhaustive domains).  For graphs of EVERY size:
+`Lemmas/C14Dfs.lean` (fuel-free semantics of the recursive detector, the fuel never runs out),
+`Lemmas/C14DfsDir.lean` / `Lemmas/C14DfsUnd.lean` (detector = closed walk / = self-loop or simple cycle),
+`Lemmas/C14Forest.lean` + `Lemmas/C14TreeU.lean` (edge count of connected graphs, `is_tree`),
+`Lemmas/C14Cyclomatic.lean` (cyclomatic number > 0 ⇔ self-loop or simple cycle), `Lemmas/C14Polytree.lean`
+(`is_tree` of a digraph ⇔ its underlying graph is a tree),
+`Lemmas/C14Reach.lean` (the reference closures compute reachability / components),
+`Lemmas/C14TreeCtor.lean` (the `Tree` constructor accepts exactly the arborescences; depth, parent,
+leaves of accepted trees), `Lemmas/C14Levels.lean` (`maximum_depth`, `vertices_at_depth`; model in `Core/C14Ext.lean`),
+`Lemmas/C14Prune.lean` (`PointTree.from_mask` keeps the root's component), `Lemmas/C14MaskSeq.lean`
+(a sequence of masks is one mask),
+`Core/C14Kruskal.lean` + `Lemmas/C14Kruskal.lean` + `Lemmas/C14KruskalComp.lean` (the Kruskal reference
+returns a minimum spanning forest).  Core Lean only.
 
 What is a *contract parameter* (scipy, not menpo code): the predecessor / distance arrays of
 `csgraph.shortest_path`, `breadth_first_order`, `depth_first_order`, the listing order of
@@ -30,6 +42,16 @@ import MenpoModel.Lemmas.C14Basic
 import MenpoModel.Lemmas.C14Paths
 import MenpoModel.Lemmas.C14Dist
 import MenpoModel.Lemmas.C14Small
+import MenpoModel.Lemmas.C14Cycle
+import MenpoModel.Lemmas.C14TreeU
+import MenpoModel.Lemmas.C14TreeCtor
+import MenpoModel.Lemmas.C14Prune
+import MenpoModel.Lemmas.C14Kruskal
+import MenpoModel.Lemmas.C14KruskalComp
+import MenpoModel.Lemmas.C14Levels
+import MenpoModel.Lemmas.C14MaskSeq
+import MenpoModel.Lemmas.C14Cyclomatic
+import MenpoModel.Lemmas.C14Polytree
 import MenpoModel.Lemmas.C14U0
 import MenpoModel.Lemmas.C14U1
 import MenpoModel.Lemmas.C14U2
@@ -464,5 +486,213 @@ theorem reference_distance_correct (g : Graph) (s : Nat) (hs : s < g.n) :
       route.Nodup → g.routeWeight route = some x →
       ∃ y, (g.dist s).getD v none = some y ∧ y ≤ x) :=
   ⟨fun v x h => dist_sound g s hs v x h, fun route v x h1 h2 h3 h4 h5 => dist_optimal g s route v x h1 h2 h3 h4 h5⟩
+
+/-! ## 8. The cycle detector `_has_cycles` on graphs of EVERY size -/
+
+/-- PROPERTY (unbounded, the function as coded).  For any adjacency list whose entries are vertex
+numbers, `_has_cycles(adjacency_list, directed=True)` — the recursive DFS with its shared
+`entered / exited / tree_edges / back_edges` state and the fuel `hasCyclesL` gives it — answers `True`
+exactly when some edge `v → c` lies on a closed walk (`c ⇝ v`). -/
+theorem hasCyclesL_correct_directed (adjL : List (List Nat))
+    (hwf : ∀ u, ∀ y ∈ Dfs.adjOf adjL u, y < adjL.length) :
+    hasCyclesL adjL true = true ↔ ∃ v c, c ∈ Dfs.adjOf adjL v ∧ Dfs.Walk (Dfs.adjOf adjL) c v :=
+  Dfs.hasCyclesL_directed adjL hwf
+
+/-- PROPERTY (unbounded, the function as coded).  For any symmetric adjacency list without repeated
+entries, `_has_cycles(adjacency_list, directed=False)` answers `True` exactly when the graph has a
+self-loop or a simple cycle: `k ≥ 3` distinct vertices, each adjacent to the cyclically next. -/
+theorem hasCyclesL_correct_undirected (adjL : List (List Nat))
+    (hwf : ∀ u, ∀ y ∈ Dfs.adjOf adjL u, y < adjL.length)
+    (hsym : ∀ u v, v ∈ Dfs.adjOf adjL u → u ∈ Dfs.adjOf adjL v) (hnd : ∀ u, (Dfs.adjOf adjL u).Nodup) :
+    hasCyclesL adjL false = true ↔
+      (∃ u, u ∈ Dfs.adjOf adjL u) ∨
+      ∃ C : List Nat, 3 ≤ C.length ∧ C.Nodup ∧
+        ∀ i, i < C.length → C.getD ((i + 1) % C.length) 0 ∈ Dfs.adjOf adjL (C.getD i 0) :=
+  Dfs.hasCyclesL_undirected adjL hwf hsym hnd
+
+/-- the hypotheses are satisfiable and the answer non-trivial: the 5-cycle with a pendant vertex -/
+def exAdj : List (List Nat) := [[1, 4], [0, 2], [1, 3], [2, 4, 5], [0, 3], [3]]
+example : (∀ u, ∀ y ∈ Dfs.adjOf exAdj u, y < exAdj.length) ∧ (∀ u, (Dfs.adjOf exAdj u).Nodup) ∧
+    hasCyclesL exAdj false = true ∧ hasCyclesL [[1], [0, 2], [1]] false = false ∧
+    hasCyclesL [[1], [2], [0], [0]] true = true ∧ hasCyclesL [[1, 2], [2], [], [0]] true = false := by
+  refine ⟨?_, ?_, by decide, by decide, by decide, by decide⟩
+  · intro u y hy
+    rcases Nat.lt_or_ge u 6 with h | h
+    · match u, h with
+      | 0, _ | 1, _ | 2, _ | 3, _ | 4, _ | 5, _ => revert y; decide
+    · have := Dfs.adjOf_lt_of_mem hy
+      simp only [exAdj, List.length_cons, List.length_nil] at this
+      omega
+  · intro u
+    rcases Nat.lt_or_ge u 6 with h | h
+    · match u, h with
+      | 0, _ | 1, _ | 2, _ | 3, _ | 4, _ | 5, _ => decide
+    · have : Dfs.adjOf exAdj u = [] := by
+        unfold Dfs.adjOf
+        rw [List.getD_eq_getElem?_getD, List.getElem?_eq_none (by simpa [exAdj] using h)]; rfl
+      rw [this]; exact List.nodup_nil
+
+/-- PROPERTY (unbounded).  `DirectedGraph.has_cycles()` equals the closed-walk reference on EVERY graph
+(the table `hasCycles_correct_small_directed` for all sizes), and the reference means what it says. -/
+theorem hasCycles_correct_directed (g : Graph) :
+    g.hasCycles true = g.refCycleD ∧
+    (g.hasCycles true = true ↔ ∃ v c, v < g.n ∧ c ∈ g.children v ∧ Reach g.children c v) :=
+  ⟨hasCycles_eq_refCycleD g, hasCycles_directed_iff g⟩
+
+/-- PROPERTY (unbounded).  `UndirectedGraph.has_cycles()` is `True` exactly when the (symmetric) graph
+has a self-loop or a simple cycle, and it equals the cyclomatic-number reference `m + c > n` on EVERY
+symmetric graph (the table `hasCycles_correct_small_undirected`, first half, for all sizes). -/
+theorem hasCycles_correct_undirected (g : Graph) (hs : g.Symmetric) :
+    (g.hasCycles false = true ↔
+      (∃ u, u < g.n ∧ g.isEdge u u = true) ∨
+      ∃ C : List Nat, 3 ≤ C.length ∧ C.Nodup ∧ (∀ v ∈ C, v < g.n) ∧
+        ∀ i, i < C.length → g.isEdge (C.getD i 0) (C.getD ((i + 1) % C.length) 0) = true) ∧
+    g.hasCycles false = g.refCycleU ∧ (g.refCycleU = true ↔ g.HasUndCycle) :=
+  ⟨hasCycles_undirected_iff g hs, hasCycles_eq_refCycleU g hs, refCycleU_iff g hs⟩
+
+example : (fromEdgesSym 6 [(0, 1), (1, 2), (2, 3), (3, 4), (4, 0), (3, 5)]).SimpleCycle [0, 1, 2, 3, 4] := by
+  refine ⟨by decide, by decide, by decide, ?_⟩
+  intro i hi
+  match i, hi with
+  | 0, _ | 1, _ | 2, _ | 3, _ | 4, _ => decide
+
+/-! ## 9. `is_tree` and the `Tree` constructor on graphs of EVERY size -/
+
+/-- PROPERTY (unbounded).  `UndirectedGraph.is_tree()` holds exactly for the non-empty connected graphs
+without cycle (the `n - 1` edges the code counts are implied), it equals the reference `refTreeU` on
+every symmetric graph (the table `hasCycles_correct_small_undirected`, second half, for all sizes), and
+a connected graph has at least `n - 1` edges, exactly `n - 1` iff the detector finds no cycle. -/
+theorem isTree_undirected_spec (g : Graph) (hs : g.Symmetric) :
+    (g.isTree false = true ↔ 0 < g.n ∧ g.Connected ∧ ¬ g.HasUndCycle) ∧
+    g.isTree false = g.refTreeU ∧
+    (0 < g.n → g.Connected →
+      g.n ≤ g.edgesU.length + 1 ∧ (g.hasCycles false = false ↔ g.edgesU.length + 1 = g.n)) :=
+  ⟨isTree_undirected_iff_connected_acyclic g hs, isTree_eq_refTreeU g hs,
+    fun hn hc => connected_edge_count g hs hc hn⟩
+
+/-- PROPERTY (unbounded).  `DirectedGraph.is_tree()` (since `fix: 88f3f30`) equals the reference "the
+underlying undirected graph is a tree" on EVERY graph (the table `isTree_spec_small_directed` for all
+sizes); it holds exactly for the weakly connected graphs with `n - 1` edges (the acyclicity test of the
+code is implied), equivalently those with `n - 1` edges none of which lies on a closed walk; such a
+graph has neither loops nor antiparallel pairs. -/
+theorem isTree_directed_spec (g : Graph) :
+    g.isTree true = g.refPolytree ∧
+    (g.isTree true = true ↔ g.nComponents = 1 ∧ g.edgesD.length + 1 = g.n) ∧
+    (g.isTree true = true ↔
+      g.edgesD.length + 1 = g.n ∧ (¬ ∃ v c, v < g.n ∧ c ∈ g.row v ∧ Reach g.row c v) ∧ g.Connected) ∧
+    (g.isTree true = true → ∀ i j, i < g.n → j < g.n → g.w i j ≠ 0 → g.w j i = 0) := by
+  refine ⟨isTree_eq_refPolytree g, isTree_directed_iff_polytree g, isTree_directed_iff g, ?_⟩
+  intro h i j hi hj h1
+  apply Classical.byContradiction
+  intro h2
+  exact isTree_directed_no_antiparallel g h i j hi hj h1 h2
+
+example : (fromEdges 6 [(0, 1), (2, 1), (1, 3), (3, 4), (5, 4)]).isTree true = true ∧
+    (List.range 6).all (fun r => !(fromEdges 6 [(0, 1), (2, 1), (1, 3), (3, 4), (5, 4)]).treeCtorOk r) = true := by
+  decide
+
+/-- PROPERTY (unbounded; the table `treeCtor_spec_small` for all sizes and all roots).  The `Tree`
+constructor with checks accepts exactly the arborescences rooted at `root_vertex` on at least two
+vertices: the root has no parent, every other vertex exactly one, every vertex is reached from the root. -/
+theorem treeCtor_spec (g : Graph) (r : Nat) :
+    g.treeCtorOk r = (decide (2 ≤ g.n) && g.refArborescence r) ∧
+    (g.treeCtor r = .ok () ↔ 2 ≤ g.n ∧ r < g.n ∧ g.parents r = [] ∧
+      (∀ v, v < g.n → v ≠ r → ∃ p, g.parents v = [p]) ∧ (∀ v, v < g.n → Reach g.children r v)) := by
+  refine ⟨treeCtorOk_eq g r, ?_⟩
+  rw [treeCtor_iff, refArborescence_iff]
+  constructor
+  · rintro ⟨h2, A⟩; exact ⟨h2, A.root_lt, A.root_col, A.col_single, A.reach⟩
+  · rintro ⟨h2, h3, h4, h5, h6⟩; exact ⟨h2, ⟨h3, h4, h5, h6⟩⟩
+
+/-- PROPERTY (unbounded).  In every accepted tree the relations are total and mutually consistent: the
+root has no parent and every other vertex a parent in range whose child it is; every vertex has a depth
+`< n`, namely the number of steps of any route from the root to it; a non-root vertex has depth `d + 1`
+iff its parent has depth `d`; the leaves are exactly the vertices that are nobody's parent. -/
+theorem tree_relations_total (g : Graph) (r : Nat) (h : g.treeCtor r = .ok ()) :
+    (g.parent r = none ∧ ∀ v, v < g.n → v ≠ r → ∃ p, g.parent v = some p ∧ p < g.n ∧ v ∈ g.children p) ∧
+    (∀ v, v < g.n → ∃ d, g.depth r v = some d ∧ d < g.n) ∧
+    (∀ l : List Nat, g.isRoute (r :: l) = true → (∀ x, x ∈ l → x < g.n) →
+      g.depth r ((r :: l).getLast (by simp)) = some l.length) ∧
+    (∀ v d, v ≠ r → (g.depth r v = some (d + 1) ↔ ∃ p, g.parent v = some p ∧ g.depth r p = some d)) ∧
+    (∀ v, v ∈ g.leaves ↔ v < g.n ∧ ∀ c, c < g.n → g.parent c ≠ some v) ∧
+    g.edgesD.length + 1 = g.n :=
+  ⟨treeCtor_parent g r h, treeCtor_depth_total g r h, treeCtor_route_length g r h,
+    fun v d hv => depth_succ_iff g r v d hv, treeCtor_leaves g r h, treeCtor_edge_count g r h⟩
+
+example : exTree.treeCtor 0 = .ok () := by
+  have : errOf (exTree.treeCtor 0) = none := by decide
+  cases h : exTree.treeCtor 0 with
+  | ok u => cases u; rfl
+  | error e => rw [h] at this; cases this
+
+/-- PROPERTY (the reference closures mean what they say).  `nComponents = 1` iff any two vertices are
+joined in the underlying undirected graph; the component of `r` is what is reachable from `r`. -/
+theorem reference_components_correct (g : Graph) :
+    (0 < g.n → (g.nComponents = 1 ↔ g.Connected)) ∧
+    (∀ r v, r < g.n → (v ∈ g.component r ↔ Reach g.und r v)) ∧
+    (g.refCycleD = true ↔ ∃ v c, v < g.n ∧ c ∈ g.row v ∧ Reach g.row c v) :=
+  ⟨fun hn => nComponents_eq_one_iff g hn, fun r v hr => mem_component g r v hr, refCycleD_iff g⟩
+
+/-! ## 10. `PointTree.from_mask` keeps exactly what stays connected to the root -/
+
+/-- PROPERTY (unbounded).  `PointTree.from_mask` as coded (mask, then iterated pruning to the root's
+component with root re-indexing, then the constructor): a mask of the wrong length and a mask that
+removes the root are refused, the all-`True` shortcut returns the tree itself, and whenever a result is
+returned for another mask it is exactly the subgraph induced by the masked-in vertices joined to the
+root through masked-in vertices (`Kept`), renumbered in increasing order, with the root at its new
+index, connected, and it passed the `Tree` constructor. -/
+theorem treeFromMask_root_component (g : Graph) (r : Nat) (m : List Bool) :
+    (m.length ≠ g.n → g.treeFromMask r m = .error .maskLength) ∧
+    (m.length = g.n → m.all id = true → g.treeFromMask r m = .ok (g, r, List.range g.n)) ∧
+    (m.length = g.n → m.all id = false → m.getD r false = false → g.treeFromMask r m = .error .rootRemoved) ∧
+    (∀ g' r' keep', m.all id = false → g.treeFromMask r m = .ok (g', r', keep') →
+      keep'.Pairwise (· < ·) ∧ (∀ v, v ∈ keep' ↔ Kept g m r v) ∧
+      keep' = (List.range g.n).filter (keptB g m r) ∧
+      g'.n = keep'.length ∧
+      (∀ i j, i < g'.n → j < g'.n → g'.w i j = g.w (keep'.getD i 0) (keep'.getD j 0)) ∧
+      r' < g'.n ∧ keep'.getD r' 0 = r ∧ r' = (keep'.filter fun x => decide (x < r)).length ∧
+      g'.nComponents = 1 ∧ g'.treeCtor r' = .ok ()) := by
+  refine ⟨treeFromMask_maskLength g r m, treeFromMask_allTrue g r m, treeFromMask_rootRemoved g r m, ?_⟩
+  intro g' r' keep' hall hok
+  have S := treeFromMask_spec g r m g' r' keep' hall hok
+  have hlen := treeFromMask_ok_length g r m _ hok
+  exact ⟨S.sorted, S.mem, S.keep_eq hlen, S.n_eq, S.w_eq, S.root_lt, S.root_eq, S.root_index, S.conn,
+    treeFromMask_ctor g r m g' r' keep' hall hok⟩
+
+/-- the pruning loop itself, for any graph: fuel `n + 1` suffices (one round does) -/
+theorem pruneLoop_root_component (g : Graph) (r : Nat) (m : List Bool) (hlen : m.length = g.n)
+    (hr : m[r]? = some true) :
+    PruneSpec g m r
+      (pruneLoop (g.n + 1) (g.select (keepIdx g.n m)) (rank m r) (keepIdx g.n m)).1
+      (pruneLoop (g.n + 1) (g.select (keepIdx g.n m)) (rank m r) (keepIdx g.n m)).2.1
+      (pruneLoop (g.n + 1) (g.select (keepIdx g.n m)) (rank m r) (keepIdx g.n m)).2.2 :=
+  pruneLoop_spec g r m hlen hr
+
+/-! ## 11. The Kruskal reference returns a minimum spanning forest -/
+
+/-- PROPERTY (reference for `minimum_spanning_tree`).  The numbers the driver reports are the weight
+and the size of the edge list `kruskalEdges`; these edges are edges of the graph with their stored
+weight, listed by increasing weight without repetition; no chosen edge closes a path of the edges
+chosen before it, nor of all the other chosen edges (forest); they connect exactly what the graph
+connects (spanning); there are `n - #components` of them; and no set of graph edges connecting the
+same vertices weighs less (minimum). -/
+theorem kruskal_minimum_spanning_forest (g : Graph) :
+    g.kruskal = ((g.kruskalEdges.map (·.1)).sum, g.kruskalEdges.length) ∧
+    (∀ w i j, (w, i, j) ∈ g.kruskalEdges → i < j ∧ j < g.n ∧ (g.w i j ≠ 0 ∨ g.w j i ≠ 0) ∧ w = g.uw i j) ∧
+    g.kruskalEdges.Pairwise (fun a b => a.1 ≤ b.1) ∧ g.kruskalEdges.Nodup ∧
+    ForestOrd g.kruskalEdges ∧
+    (∀ e ∈ g.kruskalEdges, ¬ Conn (g.kruskalEdges.filter fun x => x != e) e.2.1 e.2.2) ∧
+    (∀ u v, Conn g.wEdges u v ↔ Conn g.kruskalEdges u v) ∧
+    (∀ u v, u < g.n → (Conn g.wEdges u v ↔ Reach g.und u v)) ∧
+    g.kruskalEdges.length + g.nComponents = g.n ∧
+    (∀ F : List WEdge, (∀ e ∈ F, e ∈ g.wEdges) →
+      (∀ u v, u < g.n → v < g.n → Conn g.wEdges u v → Conn F u v) →
+      (g.kruskalEdges.map (·.1)).sum ≤ (F.map (·.1)).sum) :=
+  ⟨kruskal_eq_edges g, kruskalEdges_mem g, kruskalEdges_sorted g, kruskalEdges_nodup g, kruskal_forest g,
+    kruskal_bridges g, kruskal_spanning g, fun u v hu => conn_wEdges_iff_reach g u v hu,
+    kruskal_count_components g, kruskal_minimal g⟩
+
+example : exG.kruskalEdges = [(1, 3, 4), (2, 0, 1), (2, 0, 2), (4, 2, 4)] ∧ exG.kruskal = (9, 4) ∧
+    exG.nComponents = 2 := by decide
 
 end MenpoModel.C14
